@@ -2,7 +2,7 @@ package main
 
 // E13: self-test of the checker (thorough tier). Every breaking mutant of the property
 // (and every independently seeded change) must make the check fire, every neutral variant
-// must leave it silent. Each variant is a scratch copy of /repo's working tree with one
+// (the hand-made ones of this property and the whole pool in neutral_pool/) must leave it silent. Each variant is a scratch copy of /repo's working tree with one
 // patch applied, analysed by a FRESH process of this binary; the copy is deleted at once.
 // Nothing is executed from the copies: they are only parsed and type-checked.
 
@@ -40,6 +40,9 @@ func runSelftest(c *Ctx, verifDir string) {
 	add(filepath.Join(verifDir, "mutants", prop, "*.patch"), "mutant")
 	add(filepath.Join(verifDir, "seeded", prop+"-*", "patch.diff"), "seeded")
 	add(filepath.Join(verifDir, "neutral", prop, "*.patch"), "neutral")
+	// the pool of behaviour-preserving refactorings written by independent sub-agents for ALL
+	// properties: none of them may make THIS property's check fire
+	add(filepath.Join(verifDir, "neutral_pool", "*", "*.patch"), "pool")
 	if len(variants) == 0 {
 		return
 	}
@@ -60,6 +63,9 @@ func runSelftest(c *Ctx, verifDir string) {
 			name := strings.TrimSuffix(filepath.Base(path), ".patch")
 			if kind == "seeded" {
 				name = filepath.Base(filepath.Dir(path))
+			}
+			if kind == "pool" {
+				name = "pool/" + filepath.Base(filepath.Dir(path)) + "/" + name
 			}
 			res := variantResult{Name: name, Kind: kind}
 			if kind == "seeded" {
@@ -117,7 +123,7 @@ func runSelftest(c *Ctx, verifDir string) {
 			} else {
 				missed = append(missed, r.Name)
 			}
-		case r.Kind == "neutral" || r.Kind == "seeded-neutralised":
+		case r.Kind == "neutral" || r.Kind == "seeded-neutralised" || r.Kind == "pool":
 			nN++
 			if r.Exit == 0 {
 				nNS++
